@@ -1105,6 +1105,37 @@ func c02Programs(r *run.Run) {
 		})
 }
 
+// c02Recursion: subroutines that call themselves or each other, in every position of the call (in the middle,
+// as the last operator, in front of the return): the interpreter bounds the nesting, whatever the shape.
+func c02Recursion(r *run.Run) {
+	const callsubr, callgsubr, ret = 10, 29, 11
+	s0, s1 := byte(139-107), byte(139-106) // subroutine numbers 0 and 1 (bias 107)
+	bodies := [][]byte{
+		{ret},
+		{s0, callsubr}, {s0, callsubr, ret}, {s0, callgsubr}, {s0, callgsubr, ret},
+		{s1, callsubr, ret}, {s1, callgsubr, ret},
+		{140, 141, 21, s0, callgsubr}, {s0, callsubr, 140, 141, 21, ret},
+	}
+	seed := c02TableSeed("cff.Read", "type 2 recursion", nil)
+	r.Explore(explore.Config{Name: "C02.t2-recursion", Workers: 1, Deadline: r.PartDeadline(0.2)},
+		fmt.Sprintf("CFF fonts with two global and two local subroutines, each with one of %d bodies (return; a call of subroutine 0 or 1 of either kind as the last operator, in front of a return, or followed by a move), and a glyph that calls local or global subroutine 0: cff.Read returns a value or an error within the step bound (direct and mutual recursion in every shape)", len(bodies)),
+		func(c *explore.Ctx) {
+			pick := func(what string) []byte { return bodies[c.Choose(len(bodies), what)] }
+			g := [][]byte{pick("global subroutine 0"), pick("global subroutine 1")}
+			l := [][]byte{pick("local subroutine 0"), pick("local subroutine 1")}
+			prog := []byte{s0, callsubr, 14}
+			if c.Bool("the glyph calls the global subroutine") {
+				prog = []byte{s0, callgsubr, 14}
+			}
+			b := refcff.Assemble(&refcff.AsmSpec{Name: "Rec", CharStrings: [][]byte{{14}, prog}, GlyphNames: []string{"A"}, GlobalSubrs: g, Privates: []refcff.AsmPrivate{{LocalSubrs: l}}})
+			what := func() string {
+				return fmt.Sprintf("a CFF font with the global subroutines <% x> <% x>, the local subroutines <% x> <% x> and the glyph <% x>", g[0], g[1], l[0], l[1], prog)
+			}
+			c.Sample(func() any { return what() })
+			c02Check(c, seed, b, what)
+		})
+}
+
 // a real-world sized font (Go Regular, 149 kB) with a thinned-out deviation alphabet
 func c02Large(r *run.Run) {
 	seed := c02TableSeed("sfnt.Read", "Go Regular", goregular.TTF)
@@ -1164,6 +1195,7 @@ func init() {
 		}
 		c02FamiliesPart(r)
 		c02Programs(r)
+		c02Recursion(r)
 		c02ReencodeLimits(r)
 		c02ReencodeGdef(r)
 		c02ReencodeHeader(r)
